@@ -1,5 +1,5 @@
 """C02 — BIP340 Schnorr: signatures equal the specification, verification exactly per spec."""
-from buidl import hash as bhash, pecc, phash
+from buidl import ecc as becc, hash as bhash, pecc, phash
 from buidl.pecc import PrivateKey, S256Point, SchnorrSignature
 
 from vp.core import ImplTimeout
@@ -18,7 +18,15 @@ RULE = ("Keys of both public-key parities and nonces of both R parities (classes
         "point at infinity and rejected constructor arguments; signature objects with s in range, s < 0, s >= n and "
         "odd-y R; SEC keys of 33 and 65 bytes and a wrong-parity prefix; signature strings of 0, 1, 31, 32, 33, 48, 62, 63, "
         "64, 65 and 96 bytes including a signature whose s starts with a zero byte; sessions mixing tagged_hash, sign "
-        "and verify (succeeding and failing calls) observed together with the tags left in TAG_HASH_CACHE.")
+        "and verify (succeeding and failing calls) observed together with the tags left in TAG_HASH_CACHE.  Entry-point "
+        "audit: keys made by PrivateKey.parse of WIF texts (both networks, both compression flags), by the constructor "
+        "with non-default arguments and by tweaked_key (default and explicit root); point objects made by scalar "
+        "multiplication, +, point + int, combine of one / two equal / three differing points, negation, even_point(), "
+        "parse_sec / parse_xonly and the constructor on field elements; key, point, signature objects and G observed "
+        "again after sign / verify / repr / == / != and after calls that raised; every tagged-hash wrapper, failing "
+        "tagged-hash calls followed by a retry; keys and R whose x starts with a zero byte; all-zero / all-ff triples; "
+        "message = aux = key = R coincidences; signatures with s*G = e*P (R' at infinity); x-only keys p + small x; "
+        "SEC strings with every wrong prefix and length.")
 # the extraction self-check (vm_compute inside Coq) cannot run secp256k1 scalar multiplications in its time limit:
 # the curve entry points are left to the extracted driver; parsers, lift_x, the codec and the tag cache are re-evaluated
 VM_SKIP = {"sign_schnorr", "bip340_sign", "bip340_k", "verify_schnorr", "bip340_verify", "sign_schnorr_noaux",
@@ -217,7 +225,10 @@ def p_tagged(calls):
 # the named wrappers of tagged_hash and the tag each must use (BIP340 / BIP341)
 WRAPPERS = [("hash_aux", b"BIP0340/aux"), ("hash_nonce", b"BIP0340/nonce"), ("hash_challenge", b"BIP0340/challenge"),
             ("hash_taptweak", b"TapTweak"), ("hash_tapleaf", b"TapLeaf"), ("hash_tapbranch", b"TapBranch"),
-            ("hash_tapsighash", b"TapSighash")]
+            ("hash_tapsighash", b"TapSighash"),
+            # appended by the entry-point audit (indices of the earlier entries are kept: replays refer to them)
+            ("hash_keyaggcoef", b"KeyAgg coefficient"), ("hash_keyagglist", b"KeyAgg list"),
+            ("hash_musignonce", b"MuSig/noncecoef")]
 
 
 def p_tagged_wrappers(calls):
@@ -414,7 +425,323 @@ def p_session(calls):
     return None
 
 
-PROPS = {"any_length": p_any_length, "sec_key": p_sec_key, "other_s": p_other_s, "sig_object": p_sig_object,
+# ---------------------------------------------------------------- entry-point audit (alternative constructors, defaults,
+# derived point objects, sources used again after a result was produced, failing calls followed by a retry)
+
+_B58 = "123456789ABCDEFGHJKLMNPQRSTUVWXYZabcdefghijkmnopqrstuvwxyz"
+
+
+def ref_b58check(raw):
+    """independent Base58Check encoder (hashlib only)"""
+    raw = raw + ecref.hashlib.sha256(ecref.hashlib.sha256(raw).digest()).digest()[:4]
+    n, out = int.from_bytes(raw, "big"), ""
+    while n:
+        n, rem = divmod(n, 58)
+        out = _B58[rem] + out
+    return "1" * (len(raw) - len(raw.lstrip(b"\x00"))) + out
+
+
+def ref_wif(d, mainnet, compressed):
+    return ref_b58check((b"\x80" if mainnet else b"\xef") + b32(d) + (b"\x01" if compressed else b""))
+
+
+def _pt_is(pt, q):
+    """the S256Point object pt is the reference point q (None = infinity), with a consistent parity attribute"""
+    if q is None:
+        return pt.x is None and pt.y is None
+    return (pt.x is not None and pt.x.num == q[0] and pt.y.num == q[1] and pt.parity == q[1] % 2
+            and pt.sec(True) == bytes([2 + q[1] % 2]) + b32(q[0]) and pt.sec(False) == b"\x04" + b32(q[0]) + b32(q[1])
+            and pt.xonly() == b32(q[0]))
+
+
+def p_key_entry(d, m, a, mr, which):
+    """every way of making a PrivateKey signs like BIP340 for ITS secret: PrivateKey.parse of a WIF text (either
+    network, with and without the compression flag), the constructor with non-default network / compressed
+    arguments and keywords, and PrivateKey.tweaked_key (default and explicit merkle root: secret =
+    even_secret + int(hash_TapTweak(x || root)) mod n)"""
+    q = ecref.mul(d, ecref.G)
+    want = ecref.bip340_sign(d, m, a)
+    k0 = _ref_k0(d, m, a)
+    made = []
+    for i, (mainnet, compressed) in enumerate(((True, True), (True, False), (False, True), (False, False))):
+        made.append(("PrivateKey.parse(%s WIF, %scompressed)" % ("mainnet" if mainnet else "testnet", "" if compressed else "un"),
+                     PrivateKey.parse(ref_wif(d, mainnet, compressed)), i == which % 4))
+    made.append(("PrivateKey(d, 'testnet', False)", PrivateKey(d, "testnet", False), which % 4 == 0))
+    made.append(("PrivateKey(secret=d, compressed=False, network='signet')", PrivateKey(secret=d, compressed=False, network="signet"), which % 4 == 1))
+    for nm, key, do_sign in made:
+        if key.secret != d or not _pt_is(key.point, q):
+            return f"{nm}: secret or public point differ from the reference"
+        if key.even_secret() != (d if q[1] % 2 == 0 else N - d):
+            return f"{nm}: even_secret() is not the secret of the even-y point"
+        if key.bip340_k(m, a) != k0:
+            return f"{nm}: bip340_k differs from the BIP340 nonce"
+        if do_sign:
+            got = key.sign_schnorr(m, a).serialize()
+            if got != want:
+                return f"{nm}: sign_schnorr gives {got.hex()}, BIP340 gives {want.hex()}"
+    # tweaked keys
+    de = d if q[1] % 2 == 0 else N - d
+    base = PrivateKey(d)
+    for nm, root, tk in (("tweaked_key()", b"", base.tweaked_key()), ("tweaked_key(root)", mr, base.tweaked_key(mr))):
+        t = int.from_bytes(ecref.tagged(b"TapTweak", b32(q[0]) + root), "big")
+        dt = (de + t) % N
+        if tk.secret != dt or not _pt_is(tk.point, ecref.mul(dt, ecref.G)):
+            return f"{nm}: the tweaked secret is not even_secret + int(hash_TapTweak(x || root)) mod n"
+        if (nm == "tweaked_key(root)") == (which % 2 == 0):
+            got, wt = tk.sign_schnorr(m, a).serialize(), ecref.bip340_sign(dt, m, a)
+            if got != wt:
+                return f"{nm}: sign_schnorr of the tweaked key gives {got.hex()}, BIP340 gives {wt.hex()}"
+            if not ecref.bip340_verify(b32(ecref.mul(dt, ecref.G)[0]), m, got):
+                return f"{nm}: signature of the tweaked key does not verify (reference)"
+    if base.secret != d or not _pt_is(base.point, q):
+        return "tweaked_key changed the key it was called on"
+    return None
+
+
+NO_VERIFY = ("d1 * G", "parse_xonly", "S256Point(S256Field, S256Field)", "S256Point(x=, y=)")   # main path: verified elsewhere
+BAD_TOO = ("combine([P1, P2, P3])", "-1 * P1", "P1.even_point()", "P1 + d2 (int)")
+
+
+def p_derived_points(d1, d2, d3, m, a):
+    """public-key OBJECTS that were not parsed from an x-only string: scalar * G, sums (point + point, point + int,
+    S256Point.combine of one, two and three DIFFERENT points), negation, even_point(), parse_sec / parse_xonly
+    called directly, the constructor on field elements.  Each equals the reference point, verifies the BIP340
+    reference signature of its secret, rejects that signature with one bit flipped, and the operands are unchanged
+    afterwards"""
+    G0 = pecc.G
+    qs = [ecref.mul(d, ecref.G) for d in (d1, d2, d3)]
+    ps = [d * G0 for d in (d1, d2, d3)]
+    for p_, q in zip(ps, qs):
+        if not _pt_is(p_, q):
+            return "d * G is not the reference point"
+    P1, P2, P3 = ps
+    q1 = qs[0]
+    cases = [("d1 * G", P1, d1),
+             ("P1 + P2", P1 + P2, d1 + d2),
+             ("P1 + d2 (int)", P1 + d2, d1 + d2),
+             ("combine([P1])", S256Point.combine([P1]), d1),
+             ("combine([P1, P2])", S256Point.combine([P1, P2]), d1 + d2),
+             ("combine([P1, P2, P3])", S256Point.combine([P1, P2, P3]), d1 + d2 + d3),
+             ("combine([P3, P1, P1])", S256Point.combine([P3, P1, P1]), d3 + 2 * d1),
+             ("combine([P1, P1])", S256Point.combine([P1, P1]), 2 * d1),
+             ("-1 * P1", -1 * P1, N - d1),
+             ("P1.even_point()", P1.even_point(), d1 if q1[1] % 2 == 0 else N - d1),
+             ("(-1 * P1).even_point()", (-1 * P1).even_point(), d1 if q1[1] % 2 == 0 else N - d1),
+             ("parse_sec(compressed)", S256Point.parse_sec(bytes([2 + q1[1] % 2]) + b32(q1[0])), d1),
+             ("parse_sec(uncompressed)", S256Point.parse_sec(b"\x04" + b32(q1[0]) + b32(q1[1])), d1),
+             ("parse_xonly", S256Point.parse_xonly(b32(q1[0])), d1 if q1[1] % 2 == 0 else N - d1),
+             ("S256Point(S256Field, S256Field)", S256Point(pecc.S256Field(q1[0]), pecc.S256Field(q1[1])), d1),
+             ("S256Point(x=, y=)", S256Point(y=q1[1], x=q1[0]), d1)]
+    sigs = {}
+    for nm, pt, dd in cases:
+        dd %= N
+        if dd == 0:
+            continue
+        q = ecref.mul(dd, ecref.G)
+        if not _pt_is(pt, q):
+            return f"{nm} is not the reference point of its secret"
+        if nm in NO_VERIFY:
+            continue
+        if dd not in sigs:
+            sigs[dd] = ecref.bip340_sign(dd, m, a)
+        sg = sigs[dd]
+        bad = sg[:40] + bytes([sg[40] ^ 4]) + sg[41:]        # another s for the same R: never valid
+        for s_, want in ((sg, True), (bad, False))[:2 if nm in BAD_TOO else 1]:
+            try:
+                got = pt.verify_schnorr(m, SchnorrSignature.parse(s_))
+            except ImplTimeout:
+                raise
+            except Exception:  # noqa
+                got = False
+            if got is not want:
+                return f"verify_schnorr on {nm} answers {got!r}, BIP340 under its x coordinate answers {want}"
+        if not _pt_is(pt, q):
+            return f"{nm} changed during verification"
+    # the neutral element produced by the library itself is no key
+    inf = S256Point.combine([P1, -1 * P1])
+    if inf.x is not None:
+        return "combine([P, -P]) is not the point at infinity"
+    sv = 2
+    while ecref.mul(sv, ecref.G)[1] % 2:
+        sv += 1
+    crafted = b32(ecref.mul(sv, ecref.G)[0]) + b32(sv)
+    try:
+        got = inf.verify_schnorr(m, SchnorrSignature.parse(crafted))
+    except ImplTimeout:
+        raise
+    except Exception:  # noqa
+        got = False
+    if got is not False:
+        return "verify_schnorr on the point at infinity accepts a signature (x(sG), s)"
+    for p_, q in zip(ps, qs):
+        if not _pt_is(p_, q):
+            return "an operand of +, combine, negation or even_point() changed"
+    if not _pt_is(G0, ecref.G) or pecc.G is not G0:
+        return "the generator object changed"
+    return None
+
+
+def p_unchanged(d, m, a, m2):
+    """State kept across calls.  Sources are used again AFTER results were produced from them, and failing calls are
+    followed by a retry on the same objects: the key's secret and point, the module's G, a SEC-parsed point of the
+    key's own parity, a returned signature object and a parsed one keep their values through sign / verify / repr /
+    == / != / serialize calls; a sign_schnorr / bip340_k call that raises (wrong lengths) leaves nothing behind"""
+    q = ecref.mul(d, ecref.G)
+    pkx = b32(q[0])
+    G0 = pecc.G
+    key = PrivateKey(d)
+    sec_pt = S256Point.parse(bytes([2 + q[1] % 2]) + b32(q[0]))
+    want, want2, want_def = ecref.bip340_sign(d, m, a), ecref.bip340_sign(d, m2, a), ecref.bip340_sign(d, m, bytes(32))
+    Rq = ecref.lift_x(int.from_bytes(want[:32], "big"))
+
+    def state():
+        if key.secret != d or key.network != "mainnet" or key.compressed is not True:
+            return "the key's secret / network / compressed attribute changed"
+        if not _pt_is(key.point, q):
+            return "the key's public point changed"
+        if not _pt_is(sec_pt, q):
+            return "a point parsed from the SEC key changed"
+        if not _pt_is(G0, ecref.G) or pecc.G is not G0 or pecc.N != N or pecc.P != P:
+            return "the module's generator / constants changed"
+        if (becc.PrivateKey is not PrivateKey or becc.S256Point is not S256Point or becc.SchnorrSignature is not SchnorrSignature
+                or becc.G is not G0 or becc.N != N or bhash.tagged_hash is not phash.tagged_hash):
+            return "buidl.ecc / buidl.hash do not export the objects of buidl.pecc / buidl.phash"
+        return None
+
+    def failing(f, *args):
+        try:
+            f(*args)
+        except ImplTimeout:
+            raise
+        except Exception:  # noqa
+            return True
+        return False
+
+    # failing calls first, then the retry
+    for f, args in ((key.sign_schnorr, (m[:31], a)), (key.bip340_k, (m, a[:31])), (key.sign_schnorr, (m + b"\x00",)),
+                    (key.bip340_k, (b"", None)), (key.sign_schnorr, (m, a + a))):
+        if not failing(f, *args):
+            return "sign_schnorr / bip340_k accepts a message or aux that is not 32 bytes"
+        st = state()
+        if st:
+            return st + " (after a call that raised)"
+    so = key.sign_schnorr(m, a)
+    if so.serialize() != want:
+        return "sign_schnorr after calls that raised differs from BIP340"
+    if key.bip340_k(m, a) != _ref_k0(d, m, a):
+        return "bip340_k after calls that raised differs from BIP340"
+    st = state()
+    if st:
+        return st + " (after sign_schnorr)"
+    repr(so), repr(key.point), repr(sec_pt), key.hex()
+    so2 = key.sign_schnorr(m2, a)
+    so3 = key.sign_schnorr(m)
+    if so2.serialize() != want2 or so3.serialize() != want_def:
+        return "second / default-aux signature on the same key differs from BIP340"
+    if so.serialize() != want or so.s != int.from_bytes(want[32:], "big") or not _pt_is(so.r, Rq):
+        return "a signature object returned earlier changed when the key signed again"
+    # verification: valid, invalid, failing (infinity R, short string), valid again - all on the same objects
+    ps = SchnorrSignature.parse(want)
+    for pt_name, pt in (("key.point", key.point), ("SEC-parsed point", sec_pt)):
+        for sgo, msg, w in ((ps, m, True), (so2, m, m == m2), (so2, m2, True))[:3 if pt is key.point else 2]:
+            if pt.verify_schnorr(msg, sgo) is not w:
+                return f"verify_schnorr on the {pt_name} used again answers differently from BIP340"
+        if not failing(lambda: pt.verify_schnorr(m, SchnorrSignature.parse(want[:31]))):
+            return "a 31-byte signature string is accepted"
+        if pt.verify_schnorr(m, SchnorrSignature(S256Point(None, None), so.s)) is not False:
+            return "a signature object whose R is the point at infinity is accepted"
+        if pt.verify_schnorr(m, ps) is not True:
+            return f"verify_schnorr on the {pt_name} rejects the valid signature after rejected ones"
+        st = state()
+        if st:
+            return st + f" (after verify_schnorr on the {pt_name})"
+    if ps.serialize() != want or ps.s != so.s or not _pt_is(ps.r, Rq) or not _pt_is(so.r, Rq):
+        return "a signature object changed during verification"
+    # == and != of signature objects agree with the encodings
+    objs = [(so, want), (ps, want), (so2, want2), (so3, want_def), (SchnorrSignature(so.r, so2.s), want[:32] + want2[32:]),
+            (SchnorrSignature(-1 * so.r, so.s), None)]
+    for x, ex in objs:
+        for y, ey in objs:
+            same = ex is not None and ey is not None and ex == ey or x is y
+            if (x == y) is not same or (x != y) is same:
+                return "== / != of two signature objects disagrees with (R, s) equality"
+    return state()
+
+
+def ref_key_point(kb):
+    """independent decoder of a public-key string: 32 bytes = BIP340 x-only (lift_x), 33 bytes = 02/03 || x,
+    65 bytes = 04 || x || y on the curve; anything else is no key (None)"""
+    if len(kb) == 32:
+        return ecref.lift_x(int.from_bytes(kb, "big"))
+    if len(kb) == 33 and kb[0] in (2, 3):
+        pt = ecref.lift_x(int.from_bytes(kb[1:], "big"))
+        return None if pt is None else (pt[0], pt[1] if pt[1] % 2 == kb[0] - 2 else P - pt[1])
+    if len(kb) == 65 and kb[0] == 4:
+        pt = (int.from_bytes(kb[1:33], "big"), int.from_bytes(kb[33:], "big"))
+        return pt if ecref.on_curve(pt) else None
+    return None
+
+
+def p_key_string(kb, m, sig):
+    """a key string of any length and prefix: S256Point.parse yields exactly the point of the independent decoder
+    (or fails when there is none), and verification under it is BIP340 verification under that point's x"""
+    want_pt = ref_key_point(kb)
+    try:
+        pt = S256Point.parse(kb)
+    except ImplTimeout:
+        raise
+    except Exception:  # noqa
+        pt = None
+    if pt is not None and pt.x is None:
+        pt = None if want_pt is None and int.from_bytes(kb, "big") == 0 and len(kb) == 32 else pt   # x-only 0 (known mapping)
+    if (pt is None) != (want_pt is None):
+        return f"S256Point.parse {'accepts' if pt is not None else 'rejects'} a {len(kb)}-byte key string with prefix {kb[:1].hex()}, the reference decoder {'accepts' if want_pt else 'rejects'}"
+    if pt is not None and not _pt_is(pt, want_pt):
+        return "S256Point.parse yields a different point from the reference decoder"
+    got = i_accepts(kb, m, sig)
+    want = want_pt is not None and ecref.bip340_verify(b32(want_pt[0]), m, sig)
+    if got != want:
+        return f"verify_schnorr under a {len(kb)}-byte key string {'accepts' if got else 'rejects'}, BIP340 under the decoded point {'accepts' if want else 'rejects'}"
+    return None
+
+
+def p_tagged_retry(tag, msg, w):
+    """State kept across calls (TAG_HASH_CACHE is NOT cleared).  A tagged-hash call that raises (message of a
+    wrong type) - on tagged_hash itself and on the named wrapper w - is followed by correct answers for the same
+    tag, and leaves no wrong cache entry; a tag given as a read-only memoryview is the same tag"""
+    name, wtag = WRAPPERS[w]
+    for bad in (None, 5, "text"):
+        for f, args in ((phash.tagged_hash, (tag, bad)), (getattr(bhash, name), (bad,))):
+            try:
+                f(*args)
+                return "a message that is not bytes is hashed"
+            except ImplTimeout:
+                raise
+            except Exception:  # noqa
+                pass
+        if phash.tagged_hash(tag, msg) != ecref.tagged(tag, msg):
+            return "tagged_hash after a call that raised is wrong"
+        if getattr(bhash, name)(msg) != ecref.tagged(wtag, msg):
+            return f"{name} after a call that raised is wrong"
+    try:
+        got = phash.tagged_hash(memoryview(tag), msg)
+    except ImplTimeout:
+        raise
+    except Exception:  # noqa
+        got = None
+    if got is not None and got != ecref.tagged(tag, msg):
+        return "tagged_hash with the tag given as a memoryview is wrong"
+    if phash.tagged_hash(tag, msg) != ecref.tagged(tag, msg):
+        return "tagged_hash after a memoryview tag is wrong"
+    for t, v in phash.TAG_HASH_CACHE.items():
+        if bytes(v) != ecref.hashlib.sha256(bytes(t)).digest() * 2:
+            return "a TAG_HASH_CACHE entry is not sha256(tag) * 2 after calls that raised"
+    return None
+
+
+
+PROPS = {"key_entry": p_key_entry, "derived_points": p_derived_points, "unchanged": p_unchanged,
+         "tagged_retry": p_tagged_retry, "key_string": p_key_string, "any_length": p_any_length, "sec_key": p_sec_key, "other_s": p_other_s, "sig_object": p_sig_object,
          "session": p_session, "sign": p_sign, "nonce": p_nonce, "verify_ref": p_verify_ref, "tagged": p_tagged,
          "tagged_wrappers": p_tagged_wrappers, "key_reuse": p_key_reuse}
 
@@ -703,9 +1030,141 @@ def _generate_ext(ctx):
         yield ("prop", "session", [calls])
 
 
+# keys whose x coordinate starts with a zero byte (even / odd y), and (d, m, aux-int) whose BIP340 R starts with a
+# zero byte - found by search with the reference, re-checked before use
+LEADING_ZERO_PX = (153, 1158)
+LEADING_ZERO_R = (3, bytes(32), 34)
+
+
+def _generate_audit(ctx):
+    """entry-point audit: alternative entry points, defaults, coincidences of fields, byte classes, lenient
+    decoding, containers with differing elements, sources used again / failing calls retried"""
+    r = ctx.rng
+    # both public-key parities, deterministic small search
+    evens, odds = [], []
+    d = r.randrange(1, N)
+    while not (evens and odds):
+        (odds if ecref.mul(d, ecref.G)[1] % 2 else evens).append(d)
+        d = d * 3 % N or 1
+    pair = [evens[0], odds[0]]
+
+    # ---- (a)/(b) alternative constructors of the key, non-default constructor arguments, tweaked keys
+    for i, d in enumerate(pair + [rscalar(r) for _ in range(0 if ctx.tier == "quick" else ctx.n(2, 10))]):
+        ctx.label("audit/key-entry-points")
+        yield ("prop", "key_entry", [d, ctx.rbytes(32), ctx.rbytes(32), ctx.rbytes(32), i])
+
+    # ---- (a)/(f)/(g) derived point objects, combine of differing points, operands unchanged
+    for i, d in enumerate(pair[1:] + [rscalar(r) for _ in range(0 if ctx.tier == "quick" else ctx.n(2, 10))]):
+        ctx.label("audit/derived-point-objects")
+        yield ("prop", "derived_points", [d, rscalar(r), rscalar(r), ctx.rbytes(32), ctx.rbytes(32)])
+
+    # ---- (g) sources used again after the result, failing calls then retry; d = 1: key.point IS pecc.G
+    for d in pair[1:] + [1] + [rscalar(r) for _ in range(0 if ctx.tier == "quick" else ctx.n(2, 10))]:
+        ctx.label("audit/objects-unchanged+retry-after-failure")
+        yield ("prop", "unchanged", [d, ctx.rbytes(32), ctx.rbytes(32), ctx.rbytes(32)])
+
+    # ---- (g) tagged hash: failing call, retry; every wrapper once
+    for w in range(len(WRAPPERS)):
+        ctx.label("audit/tagged-failing-call-then-retry")
+        yield ("prop", "tagged_retry", [WRAPPERS[(w + 3) % len(WRAPPERS)][1] if w % 2 else ctx.rbytes(r.randrange(0, 9)),
+                                        ctx.rbytes(r.randrange(0, 70)), w])
+    yield ("prop", "tagged_wrappers", [[[w, ctx.rbytes(w)] for w in list(range(len(WRAPPERS))) * 2]])
+
+    # ---- (d) byte classes: public key x / R x with a leading zero byte; all-zero and all-ff fields
+    for d in LEADING_ZERO_PX:
+        q = ecref.mul(d, ecref.G)
+        if q[0] >> 248:
+            ctx.label("audit/leading-zero-vector-dropped")
+            continue
+        for m, a in ((ctx.rbytes(32), ctx.rbytes(32)), (b32(q[0]), b32(q[0])))[:2 if q[1] % 2 or ctx.tier != "quick" else 1]:
+            ctx.label("audit/key-x-leading-zero-byte/" + ("P-odd" if q[1] % 2 else "P-even"))
+            yield ("corr", "sign_schnorr", [d, m, a])
+            yield ("corr", "bip340_k", [d, m, a])
+            yield ("prop", "sign", [d, m, a])
+            yield ("prop", "nonce", [d, m, a])
+        sig = ecref.bip340_sign(d, m, a)
+        for nm, (pk2, m2, sg2) in sig_mutations(r, d, b32(q[0]), m, sig, 2):
+            if nm in ("valid", "R-negated(odd-y)", "s-for-odd-key", "R=Px", "msg-flip", "bitflip"):
+                yield ("corr", "verify_schnorr", [pk2, m2, sg2])
+                yield ("prop", "verify_ref", [pk2, m2, sg2])
+        if q[1] % 2:
+            yield ("prop", "sec_key", [d, m, sig])
+    d, m, ai = LEADING_ZERO_R
+    a = b32(ai)
+    sig = ecref.bip340_sign(d, m, a)
+    if sig[0] == 0:
+        ctx.label("audit/R-x-leading-zero-byte")
+        pk = b32(ecref.mul(d, ecref.G)[0])
+        yield ("corr", "sign_schnorr", [d, m, a])
+        yield ("corr", "sign_schnorr_obj", [d, m, a])
+        yield ("prop", "sign", [d, m, a])
+        yield ("prop", "sig_object", [d, m, a])
+        for x in (sig, sig[1:], sig[:63], b"\x00" + sig):
+            yield ("corr", "schnorr_reserialize", [x])
+            yield ("corr", "verify_schnorr", [pk, m, x])
+            yield ("prop", "any_length", [pk, m, x])
+    else:
+        ctx.label("audit/leading-zero-vector-dropped")
+    dk = pair[1]
+    qk = ecref.mul(dk, ecref.G)
+    pkk = b32(qk[0])
+    z32, f32 = bytes(32), b"\xff" * 32
+    vsig = ecref.bip340_sign(dk, z32, z32)
+    for pk, m, sg in ((z32, z32, bytes(64)), (f32, f32, f32 * 2), (pkk, z32, bytes(64)), (pkk, f32, f32 * 2), (z32, z32, vsig),
+                      (pkk, z32, vsig), (pkk, z32, vsig[:32] + z32), (pkk, z32, z32 + vsig[32:]), (pkk, pkk, vsig),
+                      (pkk, z32, b32(ecref.GX) + b32(1)), (b32(ecref.GX), z32, b32(ecref.GX) + b32(1)),
+                      (pkk, z32, b32(N) + b32(N - 1)), (pkk, z32, b32(N - 1) + b32(N - 1)), (pkk, z32, b32(P - 1) + b32(1))):
+        ctx.label("audit/all-zero,all-ff,constant fields")
+        yield ("corr", "verify_schnorr", [pk, m, sg])
+        yield ("corr", "bip340_verify", [pk, m, sg])
+        yield ("prop", "verify_ref", [pk, m, sg])
+    for d, m, a in ((dk, z32, f32), (pair[0], b32(pair[0]), b32(pair[0])), (dk, f32, z32), (dk, pkk, pkk))[:2 if ctx.tier == "quick" else 4]:
+        ctx.label("audit/sign: message = aux = key bytes, constant fields")
+        yield ("corr", "sign_schnorr", [d, m, a])
+        yield ("prop", "sign", [d, m, a])
+
+    # ---- (c) coincidences: s*G = e*P (R' is the point at infinity whatever R says); message = key = R
+    for d in pair:
+        q = ecref.mul(d, ecref.G)
+        de = d if q[1] % 2 == 0 else N - d
+        pk = b32(q[0])
+        for j, rb in enumerate((b32(on_curve_x(r)), pk, b32(ecref.GX))):
+            for m in (ctx.rbytes(32), pk) if j == 1 else (ctx.rbytes(32),):
+                e = int.from_bytes(ecref.tagged(b"BIP0340/challenge", rb + pk + m), "big") % N
+                for sv in (e * de % N, (N - e * de) % N)[:2 if j == 0 else 1]:
+                    ctx.label("audit/R'-is-infinity" if sv == e * de % N else "audit/s=-e*d")
+                    sg = rb + b32(sv)
+                    yield ("corr", "verify_schnorr", [pk, m, sg])
+                    yield ("corr", "bip340_verify", [pk, m, sg])
+                    yield ("prop", "verify_ref", [pk, m, sg])
+
+    # ---- (e) lenient decoding of keys: x >= p next to small on-curve x, SEC strings with every wrong prefix / length
+    for x in list(range(0, 9)) + [2 ** 32 + 976]:
+        ctx.label("audit/lift_x(p + small)")
+        yield ("corr", "lift_x", [P + x])
+        yield ("corr", "parse_point", [b32(P + x)])
+        yield ("corr", "verify_schnorr", [b32(P + x), z32, vsig])
+        yield ("prop", "key_string", [b32(P + x), z32, vsig])
+    q = qk
+    xb, yb = b32(q[0]), b32(q[1])
+    off = b32((q[1] + 1) % P)
+    secs = [bytes([pfx]) + xb + yb for pfx in (0, 2, 3, 4, 5, 6, 7, 0x84)] + [bytes([pfx]) + xb for pfx in (0, 1, 2, 3, 4, 5, 6, 0x82)]
+    secs += [b"\x04" + xb + off, b"\x04" + xb + b32(P - q[1]), b"\x04" + yb + xb, b"\x04" + z32 + z32, b"\x04" + b32(P) + yb,
+             b"\x04" + xb + f32, b"\x02" + z32, b"\x03" + z32, b"\x02" + b32(P), b"\x02" + b32(P + 1), b"\x03" + f32,
+             b"\x02" + b32(off_curve_x(r)), b"\x04" + xb + yb + b"\x00", b"\x02" + xb + b"\x00", b"\x04" + xb + yb[:31], xb + yb,
+             b"\x00" + xb[:31], xb[1:], b"\x00" + xb]
+    sgk = ecref.bip340_sign(dk, z32, f32)
+    for kb in secs:
+        ctx.label("audit/SEC-key-prefix-and-length/%d-bytes" % len(kb))
+        yield ("corr", "parse_point", [kb])
+        yield ("corr", "verify_schnorr", [kb, z32, sgk])
+        yield ("prop", "key_string", [kb, z32, sgk])
+
+
 def generate(ctx):
     yield from _generate(ctx)
     yield from _generate_ext(ctx)
+    yield from _generate_audit(ctx)
     r = ctx.rng
     # ---- boundary class: the xor operand t of the nonce derivation has leading zero bytes (a t serialised without
     # them changes the nonce hash input from 96 to fewer bytes; the signature stays valid but is not BIP340's)
